@@ -121,6 +121,22 @@ def run(ctx):
                         ORDER[:k], desc, r["value"], r["error"], rr["value"]),
                         "input": {"stages": ORDER[:k], "edit": desc, "store": store_kind, "source": progs.render_world(s.world, "extmod")}, "kf": None})
                     break
+            # a restricted evaluation (no path_commit) whose user code fails after kept sub-results completed: no path is committed
+            import copy as _copy
+            wf = _copy.deepcopy(s.world)
+            fk = ["Boom", "KeyError", "ValueError", "BoomBase"][wi % 4]
+            wf["funs"][0]["fails"] = fk
+            s.set_world(wf)
+            for k in (3, 4):
+                rf, _ = s.run(entry, {"stages": ORDER[:k]})
+                res.evaluations += 1
+                res.count("restricted_failing_runs")
+                res.nontrivial("%d failing restricted %d" % (wi, k))
+                if rf["error"] is None or rf["error"].get("cls") != fk or rf["synced"]:
+                    res.violations.append({"what": "an evaluation restricted to stages %s whose evaluated function raises %s at its end: error %s, paths committed %s" % (
+                        ORDER[:k], fk, rf["error"], rf["synced"]),
+                        "input": {"stages": ORDER[:k], "store": store_kind, "source": progs.render_world(wf, "extmod")}, "kf": None})
+                    break
             # a function that keeps nothing at all (nor anything below it), evaluated with the analysis stages only: nothing runs
             nokeep = [f["name"] for f in s.world["funs"] if not f["items"] and not f.get("store_path")
                       and all(d is not None for (_, d) in f["params"])]
